@@ -4,26 +4,37 @@ import coqgen as g
 import catchgen as cg
 
 
-def run_walk_correspondence(ctx, lines, tag):
-    """Shared by C01/C02/C11: data sets + walks -> gen/cases_<tag>_<k>.v -> mismatch codes."""
+def run_walk_correspondence(ctx, lines, tag, per_file=3):
+    """Shared by C01/C02/C11: data sets + walks -> gen/cases_<tag>_<k>.v -> mismatch codes (files compiled in parallel)."""
+    from concurrent.futures import ThreadPoolExecutor
     datasets = [l for l in lines if l.get("kind") == "dataset"]
-    total_steps, nwalks = 0, 0
+    total_steps, nwalks, jobs = 0, 0, []
     for k, ds in enumerate(datasets):
         name = ds["name"]
         init = [l for l in lines if l.get("kind") == "init" and l["dataset"] == name][0]
         walks = [l for l in lines if l.get("kind") == "case" and l["dataset"] == name]
-        body = cg.HEADER
-        body += "Definition d : dataset :=\n  %s.\n" % cg.dataset(ds)
-        body += "Definition c : dcase := mkDCase d %s\n  %s.\n" % (cg.obs(init["obs"]), g.lst([cg.walk(w) for w in walks]))
-        body += "Definition R := Eval vm_compute in check_dcase c.\nPrint R.\n"
-        body += "Definition M := Eval vm_compute in codes R.\nPrint M.\n"
-        idx = ctx.correspondence("cases_%s_%d" % (tag, k), body, label="correspondence:%s:%s" % (tag, name),
-                                 ncases=len(walks) + 3)
+        dterm = cg.dataset(ds)
+        groups = list(g.chunks(walks, per_file)) or [[]]
+        for j, grp in enumerate(groups):
+            body = cg.HEADER
+            body += "Definition d : dataset :=\n  %s.\n" % dterm
+            body += "Definition c : dcase := mkDCase d %s\n  %s.\n" % (cg.obs(init["obs"]), g.lst([cg.walk(w) for w in grp]))
+            body += "Definition R := Eval vm_compute in check_dcase c.\nPrint R.\n"
+            body += "Definition M := Eval vm_compute in codes R.\nPrint M.\n"
+            jobs.append(("cases_%s_%d_%d" % (tag, k, j), body, "correspondence:%s:%s:%d" % (tag, name, j), len(grp) + 3, name))
         nwalks += len(walks)
         total_steps += sum(len(w["ops"]) for w in walks)
+
+    def one(job):
+        fname, body, label, n, name = job
+        return job, ctx.correspondence(fname, body, label=label, ncases=n, timeout=3000)
+
+    with ThreadPoolExecutor(max_workers=8) as ex:
+        results = list(ex.map(one, jobs))
+    for (fname, body, label, n, name), idx in results:
         if idx:
-            ctx.notes.append({"dataset": name, "codes": idx,
-                              "meaning": "0 wf_dataset false; 1 base attributes != original constants; 2 initial observables; 10+w walk w"})
+            ctx.notes.append({"dataset": name, "file": fname, "codes": idx,
+                              "meaning": "0 wf_dataset false; 1 base attributes != original constants; 2 initial observables; 10+w walk w of this file"})
     return len(datasets), nwalks, total_steps
 
 
